@@ -24,10 +24,13 @@ impl TypeDef {
     #[verifier::external_body] pub fn infallible(self) -> (r: TypeDef) ensures members(r) == members(self) { unimplemented!() }
     #[verifier::external_body] pub fn impure(self) -> (r: TypeDef) ensures members(r) == members(self) { unimplemented!() }
     #[verifier::external_body] pub fn or_bytes(self) -> (r: TypeDef) ensures members(self).subset_of(members(r)) { unimplemented!() }
+    // or_null / or_undefined ...: add the member of the null value (and never remove one)
+    #[verifier::external_body] pub fn or_null(self) -> (r: TypeDef) ensures members(r) == members(self).insert(value_member(Value::Null)) { unimplemented!() }
     // TypeDef::from(Kind)
     #[verifier::external_body] pub fn from_kind(k: KindObj) -> (r: TypeDef) ensures members(r) == kind_members(k) { unimplemented!() }
 }
 impl Value {
+    pub fn is_null(&self) -> (r: bool) ensures r == (*self is Null) { matches!(self, Value::Null) }
     // Value::kind(): the kind of a value contains that value
     #[verifier::external_body]
     pub fn kind(&self) -> (r: KindObj) ensures kind_members(r).contains(value_member(*self)) { unimplemented!() }
